@@ -40,7 +40,7 @@ man = {
     ],
     "checks": checks,
     "not_applicable": na,
-    "notes": "Static analysis only; see DESIGN.md. Exit 2 + ANALYSIS-ERROR means an anchor vanished or a construct is outside the analysable subset (never a verdict). The rules are total, so quick and thorough decide the same clauses; thorough widens the exhaustive sweeps where there are any and additionally measures the check's discriminating power on the current tree (the property's mutants of sa/selftest.py must be reported, its behaviour-preserving rewrites must stay silent; recorded in the evidence under mutation_adequacy, informational).",
+    "notes": "Static analysis only; see DESIGN.md. Exit 2 + ANALYSIS-ERROR means an anchor vanished or a construct is outside the analysable subset (never a verdict). The rules are total, so quick and thorough decide the same clauses; thorough widens the exhaustive sweeps where there are any and additionally measures the check's discriminating power on the current tree (the property's mutants of sa/selftest.py must be reported, its behaviour-preserving rewrites must stay silent; recorded in the evidence under mutation_adequacy, informational; plus a deterministic sample of 48 machine-generated mutants inside the property's anchored line ranges, recorded under generated_mutant_sample).",
 }
 json.dump(man, open(os.path.join(ROOT, "MANIFEST.json"), "w"), indent=1)
 print("checks:", [c["property_id"] for c in checks], "n/a:", len(na))
